@@ -53,7 +53,7 @@ impl Continuous for T {
     fn pdf(&self, x: f64) -> f64 {
         gamma((self.dof + 1.) / 2.)
             / ((self.dof * std::f64::consts::PI).sqrt() * gamma(self.dof / 2.))
-            * (1. + x.powi(2) / self.dof).powf(-(self.dof - 1.) / 2.)
+            * (1. + x.powi(2) / self.dof).powf(-(self.dof + 1.) / 2.)
     }
 }
 
